@@ -163,6 +163,20 @@ def run_rebin(W, cfg):
         except ValueError:
             W.ob_ok('complex data refused')
         return
+    def narrow_ok():
+        # frames and cubes held in narrow integer / boolean / single-precision types: the block sums are the true sums (no wrap-around)
+        import numpy as _np
+        base = (_np.arange(R * C).reshape(R, C) * 37) % 200 + 50
+        for dt in ('bool', 'uint8', 'int8', 'uint16', 'int32', 'float32'):
+            x = base.astype(dt)
+            arr = _np.stack([x, x[::-1]]) if cfg['cube'] else x
+            got = _np.asarray(W.lentil.rebin(arr, f), dtype=float)
+            ref = arr.astype(float)
+            ref = ref.reshape(ref.shape[:-2] + (R // f, f, C // f, f)).sum(-1).sum(-2)
+            if got.shape != ref.shape or not _np.array_equal(got, ref):
+                return False
+        return True
+    W.ob_concrete('narrow dtypes: every block sum is the true sum', narrow_ok)
     if cfg['cube']:
         a = W.array([[[W.real(f'a_{d}_{i}_{j}') for j in range(C)] for i in range(R)] for d in range(2)])
         out = lt.rebin(a, f)
